@@ -49,8 +49,93 @@ def usable(ri):
     if ri is None or ri.ret is None or ri.run.e10 is None or ri.run.e11 is None:
         return False
     sp = ri.sp
-    if "inj" in sp or "injc" in sp or "maxtime" in sp or "setforce" in sp or "pre" in sp or "munge" in sp or "failalloc" in sp:
+    if "inj" in sp or "injc" in sp or "maxtime" in sp or "pre" in sp or "munge" in sp or "failalloc" in sp:
         return False
     if ri.run.e10.get("maxtime", "0000000000000000") not in ("0000000000000000", "8000000000000000"):
         return False
     return True
+
+
+def _tols(dump):
+    """'[1:s:hex;2:v:hex,hex]' -> 'hex;hex,hex' ('-' if there are no constraints)"""
+    body = dump.strip("[]")
+    if not body:
+        return "-"
+    return ";".join(it.split(":", 2)[2] or "-" for it in body.split(";"))
+
+
+def _vec(xs):
+    return ",".join(xs) if xs else "-"
+
+
+def esch_text(cfg, evs):
+    lines = ["cfg n=%s pop=%s maxeval=%s stopval=%s x0=%s" % (cfg["n"], cfg["pop"], cfg["maxeval"], cfg["stopval"], cfg["x"] or "-")]
+    lines += ["ev %s %s %d" % (_vec(e["x"]), e["f"], 1 if e["stop"] else 0) for e in evs]
+    return lines + ["end"]
+
+
+def isres_text(cfg, evs):
+    lines = ["cfg n=%s pop=%s maxeval=%s stopval=%s ftol_rel=%s ftol_abs=%s xtol_rel=%s xtol_abs=%s xw=%s x0=%s lb=%s ub=%s gtol=%s htol=%s" % (
+        cfg["n"], cfg["pop"], cfg["maxeval"], cfg["stopval"], cfg["ftol_rel"], cfg["ftol_abs"], cfg["xtol_rel"], cfg["xtol_abs"] or "-",
+        cfg["xw"] or "-", cfg["x"] or "-", cfg["lb"] or "-", cfg["ub"] or "-", _tols(cfg["fc"]), _tols(cfg["h"]))]
+    for e in evs:
+        gs = ";".join(",".join(v) for role, _, v in e["cons"] if role == 1) or "-"
+        hs = ";".join(",".join(v) for role, _, v in e["cons"] if role == 2) or "-"
+        lines.append("ev %s %s %d %s %s" % (_vec(e["x"]), e["f"], e["stop"], gs, hs))
+    return lines + ["end"]
+
+
+def crs_text(cfg, evs):
+    lines = ["cfg n=%s pop=%s maxeval=%s stopval=%s ftol_rel=%s ftol_abs=%s xtol_rel=%s xtol_abs=%s xw=%s x0=%s" % (
+        cfg["n"], cfg["pop"], cfg["maxeval"], cfg["stopval"], cfg["ftol_rel"], cfg["ftol_abs"], cfg["xtol_rel"], cfg["xtol_abs"] or "-",
+        cfg["xw"] or "-", cfg["x"] or "-")]
+    lines += ["ev %s %s %d" % (_vec(e["x"]), e["f"], 1 if e["stop"] else 0) for e in evs]
+    return lines + ["end"]
+
+
+MODELS = {"NLOPT_GN_ESCH": ("esch", esch_text), "NLOPT_GN_ISRES": ("isres", isres_text), "NLOPT_GN_CRS2_LM": ("crs", crs_text)}
+POSINF = "7ff0000000000000"
+
+
+def correspond(ctx, batch, label):
+    """replays every usable run of a modelled driver through its Lean control-flow model: the model, given the evaluations the run
+    made, must return exactly where the driver returned, with the same code, x and minf"""
+    by_stream = {}
+    for _, r, ri in batch:
+        if not usable(ri) or ri.name not in MODELS:
+            continue
+        iv = inner_view(ri)
+        if iv is None or not iv[1]:
+            continue
+        stream, mk = MODELS[ri.name]
+        cfg, evs, res = iv
+        if int(cfg["n"]) == 0 or any(len(e["x"]) != int(cfg["n"]) for e in evs):
+            continue            # n = 0 after elimination: nlopt_optimize_ answers itself, no driver runs
+        by_stream.setdefault(stream, []).append((r, ri, mk(cfg, evs), len(evs), res))
+    for stream, todo in by_stream.items():
+        text = "\n".join(l for t in todo for l in t[2]) + "\n"
+        try:
+            out = [l for l in run_model(stream, text, timeout=1200) if l.strip()]
+        except Exception as e:
+            ctx.broke("driver model %s: executable" % stream, repr(e))
+            continue
+        st = ctx.corr.setdefault("driver model " + stream, {"runs_replayed": 0, "evaluations_replayed": 0, "disagreements": 0, "return_codes": {}})
+        if len(out) != len(todo):
+            import os
+            dbg = "/var/tmp/drv_debug_%s.txt" % stream
+            open(dbg, "w").write(text)
+            ctx.broke("correspondence driver model %s (%s): output" % (stream, label), "%d result lines for %d runs: %s" % (len(out), len(todo), out[:2]))
+            continue
+        for (r, ri, _, nev, res), l in zip(todo, out):
+            st["runs_replayed"] += 1
+            st["evaluations_replayed"] += nev
+            st["return_codes"][str(res["ret"])] = st["return_codes"].get(str(res["ret"]), 0) + 1
+            f = l.split(" ")
+            want = "%d %d %s %s 0" % (res["ret"], nev, res["x"] or "-", res["minf"])
+            got = "%s %s %s %s %s" % (f[0], f[1], f[2], POSINF if f[3] == "-" else f[3], f[4]) if len(f) == 5 else l
+            if got != want:
+                st["disagreements"] += 1
+                if st["disagreements"] == 1:
+                    ctx.broke("correspondence driver model %s (%s): model vs implementation" % (stream, label),
+                              "implementation (ret nevals x minf short): %s\n model: %s\n spec: %s" % (want, got, r.spec))
+                    ctx.cov.setdefault("first_driver_disagreement", {"spec": r.spec, "model": got, "implementation": want})
